@@ -355,6 +355,30 @@ def check(run: Run) -> None:
         if not (own and rec and anyof):
             run.finding("C03.i", "TSInputActiveTarget::has_any_active", "has_any_active() must be true iff the node itself is active or any child (recursively) is", loc=fh.loc(fh.body))
 
+    with run.obligation("C03.j", "K7", "user code never runs for a wake-up that is no longer pending: the graph keeps ONE slot per node holding the earliest time it was ever "
+                        "given; cancelling a request (un_schedule, pop_tag) or moving a tag later edits only the scheduler's own event set, so a slot written for a request "
+                        "that was withdrawn in the same evaluation still brings the engine to the node - either the cancel paths retract the slot, or evaluate_impl gates "
+                        "user code on `the scheduler fired or an input ticked` (the reference implementation's guard) (KNOWN FINDING F-C03-1 on the current tree)"):
+        SCH = "include/hgraph/runtime/node_scheduler.h"
+        retracts = {}
+        for nm in ("un_schedule", "pop_tag"):
+            fds_ = [f for f in run.tree.funcs(SCH, nm, "NodeScheduler") if f.body is not None]
+            if not fds_:
+                raise AnalysisError("anchor-vanished", f"NodeScheduler::{nm} not found")
+            retracts[nm] = any(any(R.Canon()(c.fn).startswith("graph_->") for c in R.calls(R.parse(run, f))) for f in fds_)
+        fa = R.fn(run, NODE, "evaluate_impl")
+        cn = R.aliases_of(fa)
+        gate = R.find(fa, lambda n: isinstance(n, C.Declarator) and n.name == "do_eval" and n.init is not None)
+        run.sites(len(gate), 1, "do_eval gate")
+        gtxt = cn(gate[0].init)
+        gated = "scheduled_now" in gtxt or ".modified(" in gtxt or "any_input_modified" in gtxt
+        run.count(1, "C03.j")
+        run.sample({"rule": "C03.j", "cancel_paths_touch_graph_slot": retracts, "do_eval": gtxt[:200], "gated_on_cause": gated})
+        if not any(retracts.values()) and not gated:
+            run.finding("C03.j", "evaluate_impl:withdrawn-wake-up-runs-user-code", "NodeScheduler::un_schedule / pop_tag never touch the node's graph slot and evaluate_impl "
+                        f"decides `do_eval` from input validity alone ({gtxt[:120]}): schedule(t, tag) followed in the same evaluation by un_schedule(tag) or schedule(t2 > t, tag) "
+                        "leaves the slot at t, and at t user code runs with no ticked active input and no due wake-up", loc=fa.loc(gate[0]))
+
 
 VARIANTS = [
     {"id": "i2-seed-C03-6-prune-guard-own-flag", "expect": "C03.i", "edits": [{"file": "src/hgraph/types/time_series/ts_input.cpp", "find": "        while (active != nullptr && !active->has_any_active())", "replace": "        while (active != nullptr && !active->active)"}]},
